@@ -159,15 +159,17 @@ def rtBound (t p : ℕ) (X : ℚ) : ℚ :=
   ((1 / 2) / ((scaleOf t : ℚ) * 10 ^ clampPrec t p) + (2:ℚ) ^ (-(53:ℤ))) +
     4 * (2:ℚ) ^ (-(53:ℤ)) * (X + ((1 / 2) / ((scaleOf t : ℚ) * 10 ^ clampPrec t p) + (2:ℚ) ^ (-(53:ℤ))))
 
-theorem roundtrip_second (s : Bool) (m : ℕ) (e : ℤ) (hx : F64.IsRep (F64.fin s m e)) (hb : |(F64.fin s m e).val| < 2 ^ 40)
-    (p : ℕ) (ind : Flag) (hind : ind = Flag.none ∨ ind = Flag.lat ∨ ind = Flag.lon) (sep : ℕ) (hsep : sep = 0 ∨ sep = 58) :
+theorem roundtrip_second_gen (s : Bool) (m : ℕ) (e : ℤ) (p : ℕ) (ind : Flag) (sep : ℕ) (hsep : sep = 0 ∨ sep = 58)
+    (hN : ind ≠ Flag.num) (s0 : Bool) (m0 : ℕ) (e0 : ℤ) (ind0 : Flag) (hA0 : ind0 ≠ Flag.azi)
+    (hx : F64.IsRep (F64.fin s0 m0 e0)) (hb : |(F64.fin s0 m0 e0).val| < 2 ^ 40)
+    (hhead : encodeHead (F64.fin s m e) 2 p ind = encodeHead (F64.fin s0 m0 e0) 2 p ind0)
+    (hsgn : (if readNeg ind s0 then -|(F64.fin s0 m0 e0).val| else |(F64.fin s0 m0 e0).val|) = (F64.fin s0 m0 e0).val) :
     ∃ y : F64, decode (encode (F64.fin s m e) 2 p ind sep) = .ok (y, readFlag ind) ∧ y.isFinite = true ∧
-      |(y.val - (F64.fin s m e).val)| ≤ rtBound 2 p |(F64.fin s m e).val| := by
-  have hA : ind ≠ Flag.azi := by rcases hind with rfl | rfl | rfl <;> decide
-  have hN : ind ≠ Flag.num := by rcases hind with rfl | rfl | rfl <;> decide
+      |(y.val - (F64.fin s0 m0 e0).val)| ≤ rtBound 2 p |(F64.fin s0 m0 e0).val| := by
   obtain ⟨D, M, S, F, hD, hM, hS, hF, nD, nM, nS, hl, v1, v2, v3, v4, henc⟩ := encode_shape s m e 2 p ind sep (by omega)
-  obtain ⟨a1, a2, a3, a4, a5, a6, a7⟩ := encodeHead_bound_ms s m e hx 2 p (Or.inr rfl) ind hA
-  obtain ⟨k, hk, hk40⟩ := floor_nat |(F64.fin s m e).val| (abs_nonneg _) hb
+  obtain ⟨a1, a2, a3, a4, a5, a6, a7⟩ := encodeHead_bound_ms s0 m0 e0 hx 2 p (Or.inr rfl) ind0 hA0
+  rw [← hhead] at a1 a2 a3 a4 a5 a6 a7
+  obtain ⟨k, hk, hk40⟩ := floor_nat |(F64.fin s0 m0 e0).val| (abs_nonneg _) hb
   rw [hk] at a5
   have hsc : ((scaleOf 2 : ℕ) : ℚ) = 3600 := by simp [scaleOf, DMSC.compMINUTE, DMSC.compSECOND]
   rw [hsc] at a6 a7
@@ -188,10 +190,10 @@ theorem roundtrip_second (s : Bool) (m : ℕ) (e : ℤ) (hx : F64.IsRep (F64.fin
       (k : ℚ) + (h.units : ℚ) / (3600 * 10 ^ clampPrec 2 p) := by
     rw [numVal_numOf, numVal_numOf, numVal_lastNum, v1, v2, v3, v4, hl]
     exact printed_second h.units (clampPrec 2 p) k
-  have hV : |(numVal (numOf D) + numVal (numOf M) / 60 + numVal (lastNum S F) / 3600 - |(F64.fin s m e).val|)| ≤
+  have hV : |(numVal (numOf D) + numVal (numOf M) / 60 + numVal (lastNum S F) / 3600 - |(F64.fin s0 m0 e0).val|)| ≤
       (1 / 2) / (3600 * 10 ^ clampPrec 2 p) + (2:ℚ) ^ (-(53:ℤ)) := by
     rw [hVeq, ← a5]; exact a6
-  obtain ⟨v, hv, hfin, hbound⟩ := roundtrip_core (readNeg ind h.neg) (slotsOf 2 D M S F) |(F64.fin s m e).val|
+  obtain ⟨v, hv, hfin, hbound⟩ := roundtrip_core (readNeg ind h.neg) (slotsOf 2 D M S F) |(F64.fin s0 m0 e0).val|
     ((1 / 2) / (3600 * 10 ^ clampPrec 2 p) + (2:ℚ) ^ (-(53:ℤ)))
     (by rw [hsl]; show digitsVal 0 D < 2 ^ 41; rw [v1]; omega)
     (by rw [hsl]; show digitsVal 0 M < 60; rw [v2]; exact hmi)
@@ -202,23 +204,32 @@ theorem roundtrip_second (s : Bool) (m : ℕ) (e : ℤ) (hx : F64.IsRep (F64.fin
   refine ⟨F64.add F64.nzero v, ?_, hfin, ?_⟩
   · rw [henc]
     exact decode_layout 2 sep D M S F ind h.neg v (by omega) hsep hN hD hM hS hF nD nM nS hv
-  · rw [readNeg_of_ne_azi ind h.neg hA, a1] at hbound
-    have hs := val_sign s m e
+  · rw [a1, hsgn] at hbound
     unfold rtBound
     rw [hsc]
-    rw [← hs] at hbound
     exact hbound
 
 
-theorem roundtrip_minute (s : Bool) (m : ℕ) (e : ℤ) (hx : F64.IsRep (F64.fin s m e)) (hb : |(F64.fin s m e).val| < 2 ^ 40)
+theorem roundtrip_second (s : Bool) (m : ℕ) (e : ℤ) (hx : F64.IsRep (F64.fin s m e)) (hb : |(F64.fin s m e).val| < 2 ^ 40)
     (p : ℕ) (ind : Flag) (hind : ind = Flag.none ∨ ind = Flag.lat ∨ ind = Flag.lon) (sep : ℕ) (hsep : sep = 0 ∨ sep = 58) :
-    ∃ y : F64, decode (encode (F64.fin s m e) 1 p ind sep) = .ok (y, readFlag ind) ∧ y.isFinite = true ∧
-      |(y.val - (F64.fin s m e).val)| ≤ rtBound 1 p |(F64.fin s m e).val| := by
+    ∃ y : F64, decode (encode (F64.fin s m e) 2 p ind sep) = .ok (y, readFlag ind) ∧ y.isFinite = true ∧
+      |(y.val - (F64.fin s m e).val)| ≤ rtBound 2 p |(F64.fin s m e).val| := by
   have hA : ind ≠ Flag.azi := by rcases hind with rfl | rfl | rfl <;> decide
   have hN : ind ≠ Flag.num := by rcases hind with rfl | rfl | rfl <;> decide
+  exact roundtrip_second_gen s m e p ind sep hsep hN s m e ind hA hx hb rfl
+    (by rw [readNeg_of_ne_azi ind s hA]; exact (val_sign s m e).symm)
+
+theorem roundtrip_minute_gen (s : Bool) (m : ℕ) (e : ℤ) (p : ℕ) (ind : Flag) (sep : ℕ) (hsep : sep = 0 ∨ sep = 58)
+    (hN : ind ≠ Flag.num) (s0 : Bool) (m0 : ℕ) (e0 : ℤ) (ind0 : Flag) (hA0 : ind0 ≠ Flag.azi)
+    (hx : F64.IsRep (F64.fin s0 m0 e0)) (hb : |(F64.fin s0 m0 e0).val| < 2 ^ 40)
+    (hhead : encodeHead (F64.fin s m e) 1 p ind = encodeHead (F64.fin s0 m0 e0) 1 p ind0)
+    (hsgn : (if readNeg ind s0 then -|(F64.fin s0 m0 e0).val| else |(F64.fin s0 m0 e0).val|) = (F64.fin s0 m0 e0).val) :
+    ∃ y : F64, decode (encode (F64.fin s m e) 1 p ind sep) = .ok (y, readFlag ind) ∧ y.isFinite = true ∧
+      |(y.val - (F64.fin s0 m0 e0).val)| ≤ rtBound 1 p |(F64.fin s0 m0 e0).val| := by
   obtain ⟨D, M, S, F, hD, hM, hS, hF, nD, nM, nS, hl, v1, v2, v3, v4, henc⟩ := encode_shape s m e 1 p ind sep (by omega)
-  obtain ⟨a1, a2, a3, a4, a5, a6, a7⟩ := encodeHead_bound_ms s m e hx 1 p (Or.inl rfl) ind hA
-  obtain ⟨k, hk, hk40⟩ := floor_nat |(F64.fin s m e).val| (abs_nonneg _) hb
+  obtain ⟨a1, a2, a3, a4, a5, a6, a7⟩ := encodeHead_bound_ms s0 m0 e0 hx 1 p (Or.inl rfl) ind0 hA0
+  rw [← hhead] at a1 a2 a3 a4 a5 a6 a7
+  obtain ⟨k, hk, hk40⟩ := floor_nat |(F64.fin s0 m0 e0).val| (abs_nonneg _) hb
   rw [hk] at a5
   have hsc : ((scaleOf 1 : ℕ) : ℚ) = 60 := by simp [scaleOf, DMSC.compMINUTE]
   rw [hsc] at a6 a7
@@ -237,10 +248,10 @@ theorem roundtrip_minute (s : Bool) (m : ℕ) (e : ℤ) (hx : F64.IsRep (F64.fin
       (k : ℚ) + (h.units : ℚ) / (60 * 10 ^ clampPrec 1 p) := by
     rw [numVal_numOf, numVal_lastNum, numVal_empty, v1, v2, v4, hl, zero_div, add_zero]
     exact printed_minute h.units (clampPrec 1 p) k
-  have hV : |(numVal (numOf D) + numVal (lastNum M F) / 60 + numVal ({} : Num) / 3600 - |(F64.fin s m e).val|)| ≤
+  have hV : |(numVal (numOf D) + numVal (lastNum M F) / 60 + numVal ({} : Num) / 3600 - |(F64.fin s0 m0 e0).val|)| ≤
       (1 / 2) / (60 * 10 ^ clampPrec 1 p) + (2:ℚ) ^ (-(53:ℤ)) := by
     rw [hVeq, ← a5]; exact a6
-  obtain ⟨v, hv, hfin, hbound⟩ := roundtrip_core (readNeg ind h.neg) (slotsOf 1 D M S F) |(F64.fin s m e).val|
+  obtain ⟨v, hv, hfin, hbound⟩ := roundtrip_core (readNeg ind h.neg) (slotsOf 1 D M S F) |(F64.fin s0 m0 e0).val|
     ((1 / 2) / (60 * 10 ^ clampPrec 1 p) + (2:ℚ) ^ (-(53:ℤ)))
     (by rw [hsl]; show digitsVal 0 D < 2 ^ 41; rw [v1]; omega)
     (by rw [hsl]; show (lastNum M F).int < 60; rw [lastNum_int, v2]; exact hmi)
@@ -252,25 +263,34 @@ theorem roundtrip_minute (s : Bool) (m : ℕ) (e : ℤ) (hx : F64.IsRep (F64.fin
   refine ⟨F64.add F64.nzero v, ?_, hfin, ?_⟩
   · rw [henc]
     exact decode_layout 1 sep D M S F ind h.neg v (by omega) hsep hN hD hM hS hF nD nM nS hv
-  · rw [readNeg_of_ne_azi ind h.neg hA, a1] at hbound
-    have hs := val_sign s m e
+  · rw [a1, hsgn] at hbound
     unfold rtBound
     rw [hsc]
-    rw [← hs] at hbound
     exact hbound
 
-theorem roundtrip_degree (s : Bool) (m : ℕ) (e : ℤ) (hx : F64.IsRep (F64.fin s m e)) (hb : |(F64.fin s m e).val| < 2 ^ 40)
+theorem roundtrip_minute (s : Bool) (m : ℕ) (e : ℤ) (hx : F64.IsRep (F64.fin s m e)) (hb : |(F64.fin s m e).val| < 2 ^ 40)
     (p : ℕ) (ind : Flag) (hind : ind = Flag.none ∨ ind = Flag.lat ∨ ind = Flag.lon) (sep : ℕ) (hsep : sep = 0 ∨ sep = 58) :
-    ∃ y : F64, decode (encode (F64.fin s m e) 0 p ind sep) = .ok (y, readFlag ind) ∧ y.isFinite = true ∧
-      |(y.val - (F64.fin s m e).val)| ≤ rtBound 0 p |(F64.fin s m e).val| := by
+    ∃ y : F64, decode (encode (F64.fin s m e) 1 p ind sep) = .ok (y, readFlag ind) ∧ y.isFinite = true ∧
+      |(y.val - (F64.fin s m e).val)| ≤ rtBound 1 p |(F64.fin s m e).val| := by
   have hA : ind ≠ Flag.azi := by rcases hind with rfl | rfl | rfl <;> decide
   have hN : ind ≠ Flag.num := by rcases hind with rfl | rfl | rfl <;> decide
-  have hb' : |(F64.fin s m e).val| < (2:ℚ) ^ (1024:ℤ) := by
+  exact roundtrip_minute_gen s m e p ind sep hsep hN s m e ind hA hx hb rfl
+    (by rw [readNeg_of_ne_azi ind s hA]; exact (val_sign s m e).symm)
+
+theorem roundtrip_degree_gen (s : Bool) (m : ℕ) (e : ℤ) (p : ℕ) (ind : Flag) (sep : ℕ) (hsep : sep = 0 ∨ sep = 58)
+    (hN : ind ≠ Flag.num) (s0 : Bool) (m0 : ℕ) (e0 : ℤ) (ind0 : Flag) (hA0 : ind0 ≠ Flag.azi)
+    (hx : F64.IsRep (F64.fin s0 m0 e0)) (hb : |(F64.fin s0 m0 e0).val| < 2 ^ 40)
+    (hhead : encodeHead (F64.fin s m e) 0 p ind = encodeHead (F64.fin s0 m0 e0) 0 p ind0)
+    (hsgn : (if readNeg ind s0 then -|(F64.fin s0 m0 e0).val| else |(F64.fin s0 m0 e0).val|) = (F64.fin s0 m0 e0).val) :
+    ∃ y : F64, decode (encode (F64.fin s m e) 0 p ind sep) = .ok (y, readFlag ind) ∧ y.isFinite = true ∧
+      |(y.val - (F64.fin s0 m0 e0).val)| ≤ rtBound 0 p |(F64.fin s0 m0 e0).val| := by
+  have hb' : |(F64.fin s0 m0 e0).val| < (2:ℚ) ^ (1024:ℤ) := by
     have h1 : (2:ℚ) ^ (40:ℕ) < (2:ℚ) ^ (1024:ℤ) := by
       rw [← zpow_natCast]; exact Dy.two_zpow_lt_iff.mpr (by norm_num)
     exact lt_trans hb h1
   obtain ⟨D, M, S, F, hD, hM, hS, hF, nD, nM, nS, hl, v1, v2, v3, v4, henc⟩ := encode_shape s m e 0 p ind sep (by omega)
-  obtain ⟨a1, a2, a3, a4, a5, a6⟩ := encodeHead_bound_deg s m e hx hb' p ind hA
+  obtain ⟨a1, a2, a3, a4, a5, a6⟩ := encodeHead_bound_deg s0 m0 e0 hx hb' p ind0 hA0
+  rw [← hhead] at a1 a2 a3 a4 a5 a6
   have hsc : ((scaleOf 0 : ℕ) : ℚ) = 1 := by simp [scaleOf, DMSC.compMINUTE, DMSC.compSECOND]
   generalize hh : encodeHead (F64.fin s m e) 0 p ind = h at *
   have e1 : (encFields h 0).1 = h.units / 10 ^ clampPrec 0 p := by simp [encFields, a2]
@@ -282,7 +302,7 @@ theorem roundtrip_degree (s : Bool) (m : ℕ) (e : ℤ) (hx : F64.IsRep (F64.fin
       (h.units : ℚ) / 10 ^ clampPrec 0 p := by
     rw [numVal_lastNum, numVal_empty, v1, v4, hl, zero_div, zero_div, add_zero, add_zero]
     exact printed_degree h.units (clampPrec 0 p)
-  have hV : |(numVal (lastNum D F) + numVal ({} : Num) / 60 + numVal ({} : Num) / 3600 - |(F64.fin s m e).val|)| ≤
+  have hV : |(numVal (lastNum D F) + numVal ({} : Num) / 60 + numVal ({} : Num) / 3600 - |(F64.fin s0 m0 e0).val|)| ≤
       (1 / 2) / (1 * 10 ^ clampPrec 0 p) + (2:ℚ) ^ (-(53:ℤ)) := by
     rw [hVeq, one_mul]
     have := two_m53_pos
@@ -303,7 +323,7 @@ theorem roundtrip_degree (s : Bool) (m : ℕ) (e : ℤ) (hx : F64.IsRep (F64.fin
       have : (2:ℚ) ^ 40 + 1 / 2 < 2 ^ 41 := by norm_num
       linarith
     exact_mod_cast h4
-  obtain ⟨v, hv, hfin, hbound⟩ := roundtrip_core (readNeg ind h.neg) (slotsOf 0 D M S F) |(F64.fin s m e).val|
+  obtain ⟨v, hv, hfin, hbound⟩ := roundtrip_core (readNeg ind h.neg) (slotsOf 0 D M S F) |(F64.fin s0 m0 e0).val|
     ((1 / 2) / (1 * 10 ^ clampPrec 0 p) + (2:ℚ) ^ (-(53:ℤ)))
     (by rw [hsl]; show (lastNum D F).int < 2 ^ 41; rw [lastNum_int]; exact hDlt)
     (by rw [hsl]; show (0:ℕ) < 60; omega)
@@ -315,12 +335,19 @@ theorem roundtrip_degree (s : Bool) (m : ℕ) (e : ℤ) (hx : F64.IsRep (F64.fin
   refine ⟨F64.add F64.nzero v, ?_, hfin, ?_⟩
   · rw [henc]
     exact decode_layout 0 sep D M S F ind h.neg v (by omega) hsep hN hD hM hS hF nD nM nS hv
-  · rw [readNeg_of_ne_azi ind h.neg hA, a1] at hbound
-    have hs := val_sign s m e
+  · rw [a1, hsgn] at hbound
     unfold rtBound
     rw [hsc]
-    rw [← hs] at hbound
     exact hbound
+
+theorem roundtrip_degree (s : Bool) (m : ℕ) (e : ℤ) (hx : F64.IsRep (F64.fin s m e)) (hb : |(F64.fin s m e).val| < 2 ^ 40)
+    (p : ℕ) (ind : Flag) (hind : ind = Flag.none ∨ ind = Flag.lat ∨ ind = Flag.lon) (sep : ℕ) (hsep : sep = 0 ∨ sep = 58) :
+    ∃ y : F64, decode (encode (F64.fin s m e) 0 p ind sep) = .ok (y, readFlag ind) ∧ y.isFinite = true ∧
+      |(y.val - (F64.fin s m e).val)| ≤ rtBound 0 p |(F64.fin s m e).val| := by
+  have hA : ind ≠ Flag.azi := by rcases hind with rfl | rfl | rfl <;> decide
+  have hN : ind ≠ Flag.num := by rcases hind with rfl | rfl | rfl <;> decide
+  exact roundtrip_degree_gen s m e p ind sep hsep hN s m e ind hA hx hb rfl
+    (by rw [readNeg_of_ne_azi ind s hA]; exact (val_sign s m e).symm)
 
 /-- **the round trip, all three trailing units** -/
 theorem roundtrip_all (s : Bool) (m : ℕ) (e : ℤ) (hx : F64.IsRep (F64.fin s m e)) (hb : |(F64.fin s m e).val| < 2 ^ 40)
@@ -334,6 +361,93 @@ theorem roundtrip_all (s : Bool) (m : ℕ) (e : ℤ) (hx : F64.IsRep (F64.fin s 
   · exact roundtrip_minute s m e hx hb p ind hind sep hsep
   · exact roundtrip_second s m e hx hb p ind hind sep hsep
 
+
+/-! ## AZIMUTH: `Encode` first reduces the angle to `[0, 360]` -/
+
+/-- the angle `Encode` prints for the AZIMUTH flag: `AngNormalize`, then `+360` if negative, `0 + a` otherwise -/
+def aziReduce (x : F64) : F64 :=
+  if F64.lt (MathF.angNormalize x) F64.pzero then F64.add (MathF.angNormalize x) MathF.td
+  else F64.add F64.pzero (MathF.angNormalize x)
+
+theorem encodeHead_azi (x : F64) (t p : ℕ) : encodeHead x t p Flag.azi = encodeHead (aziReduce x) t p Flag.none := rfl
+
+theorem rep_180 (s : Bool) : Rep (F64.fin s 180 0).val := by
+  rw [F64.val_fin]
+  cases s
+  · exact ⟨180, 0, by norm_num, by norm_num, by simp⟩
+  · exact ⟨-180, 0, by norm_num, by norm_num, by simp⟩
+
+theorem angNormalize_rep (s : Bool) (m : ℕ) (e : ℤ) (hx : F64.IsRep (F64.fin s m e)) :
+    F64.IsRep (MathF.angNormalize (F64.fin s m e)) ∧ |(MathF.angNormalize (F64.fin s m e)).val| ≤ 180 := by
+  obtain ⟨hrep, hb⟩ := F64.remainder360_rep s m e hx
+  have htd : MathF.td = F64.fin false 360 0 := rfl
+  unfold MathF.angNormalize
+  rw [htd]
+  simp only []
+  by_cases hE : F64.eq (F64.abs (F64.remainder (F64.fin s m e) (F64.fin false 360 0))) MathF.hd = true
+  · rw [if_pos hE]
+    have hcs : F64.copysign MathF.hd (F64.fin s m e) = F64.fin s 180 0 := rfl
+    rw [hcs]
+    refine ⟨⟨rfl, rep_180 s⟩, ?_⟩
+    rw [F64.val_fin]; cases s <;> simp
+  · rw [if_neg hE]
+    exact ⟨hrep, hb⟩
+
+theorem aziReduce_spec (s : Bool) (m : ℕ) (e : ℤ) (hx : F64.IsRep (F64.fin s m e)) :
+    F64.IsRep (aziReduce (F64.fin s m e)) ∧ 0 ≤ (aziReduce (F64.fin s m e)).val ∧ (aziReduce (F64.fin s m e)).val ≤ 512 ∧
+    ((MathF.angNormalize (F64.fin s m e)).val < 0 →
+      RN ((MathF.angNormalize (F64.fin s m e)).val + 360) (aziReduce (F64.fin s m e)).val) ∧
+    (0 ≤ (MathF.angNormalize (F64.fin s m e)).val → (aziReduce (F64.fin s m e)).val = (MathF.angNormalize (F64.fin s m e)).val) := by
+  obtain ⟨⟨hfa, hra⟩, hab⟩ := angNormalize_rep s m e hx
+  unfold aziReduce
+  generalize MathF.angNormalize (F64.fin s m e) = a at *
+  have hab' := abs_le.mp hab
+  have h0 : F64.pzero.val = 0 := F64.val_fin_zero _ _
+  have htdv : MathF.td.val = 360 := by
+    show (F64.fin false 360 0).val = 360
+    rw [F64.val_fin]; simp
+  by_cases hlt : F64.lt a F64.pzero = true
+  · rw [if_pos hlt]
+    have hav : a.val < 0 := by have := (lt_fin_iff a F64.pzero hfa rfl).mp hlt; rwa [h0] at this
+    obtain ⟨f1, f2, f3⟩ := F64.add_rn a MathF.td hfa rfl 9 (by norm_num) (by norm_num) (by
+      rw [htdv, abs_le]; constructor <;> norm_num <;> linarith)
+    rw [htdv] at f2
+    have hnn : 0 ≤ (a + MathF.td).val := IsRN.nonneg f2 (by linarith)
+    have f3' := (abs_le.mp f3).2
+    refine ⟨⟨f1, RN.rep f2⟩, hnn, by norm_num at f3'; exact f3', fun _ => f2, fun h => absurd hav (not_lt.mpr h)⟩
+  · rw [if_neg hlt]
+    have hav : 0 ≤ a.val := by
+      by_contra hc
+      exact hlt ((lt_fin_iff a F64.pzero hfa rfl).mpr (by rw [h0]; exact not_le.mp hc))
+    obtain ⟨f1, f2, f3⟩ := F64.add_rn F64.pzero a rfl hfa 8 (by norm_num) (by norm_num) (by
+      rw [h0, zero_add, abs_le]; constructor <;> norm_num <;> linarith)
+    rw [h0, zero_add] at f2
+    have hval : (F64.add F64.pzero a).val = a.val := hra.rn_eq f2
+    refine ⟨⟨f1, by rw [hval]; exact hra⟩, by rw [hval]; exact hav, by rw [hval]; linarith,
+      fun h => absurd hav (not_le.mpr h), fun _ => hval⟩
+
+/-- **the round trip for the AZIMUTH flag**, with respect to the reduced angle `aziReduce x ∈ [0, 360]` that `Encode` prints -/
+theorem roundtrip_azimuth (s : Bool) (m : ℕ) (e : ℤ) (hx : F64.IsRep (F64.fin s m e)) (t p : ℕ) (ht : t ≤ 2) (sep : ℕ)
+    (hsep : sep = 0 ∨ sep = 58) :
+    ∃ y : F64, decode (encode (F64.fin s m e) t p Flag.azi sep) = .ok (y, Flag.none) ∧ y.isFinite = true ∧
+      |(y.val - (aziReduce (F64.fin s m e)).val)| ≤ rtBound t p (aziReduce (F64.fin s m e)).val := by
+  obtain ⟨⟨hf, hr⟩, h0, h512, _, _⟩ := aziReduce_spec s m e hx
+  obtain ⟨s0, m0, e0, hx0⟩ := F64.exists_fin_of_isFinite _ hf
+  have hhead : encodeHead (F64.fin s m e) t p Flag.azi = encodeHead (F64.fin s0 m0 e0) t p Flag.none := by
+    rw [← hx0]; rfl
+  rw [hx0] at hr h0 h512 ⊢
+  have habs : |(F64.fin s0 m0 e0).val| = (F64.fin s0 m0 e0).val := abs_of_nonneg h0
+  have hb : |(F64.fin s0 m0 e0).val| < 2 ^ 40 := by rw [habs]; norm_num; linarith
+  have hsgn : (if readNeg Flag.azi s0 then -|(F64.fin s0 m0 e0).val| else |(F64.fin s0 m0 e0).val|) = (F64.fin s0 m0 e0).val := by
+    simp [readNeg, habs]
+  have ht' : t = 0 ∨ t = 1 ∨ t = 2 := by omega
+  rcases ht' with rfl | rfl | rfl
+  · have := roundtrip_degree_gen s m e p Flag.azi sep hsep (by decide) s0 m0 e0 Flag.none (by decide) ⟨rfl, hr⟩ hb hhead hsgn
+    rwa [habs] at this
+  · have := roundtrip_minute_gen s m e p Flag.azi sep hsep (by decide) s0 m0 e0 Flag.none (by decide) ⟨rfl, hr⟩ hb hhead hsgn
+    rwa [habs] at this
+  · have := roundtrip_second_gen s m e p Flag.azi sep hsep (by decide) s0 m0 e0 Flag.none (by decide) ⟨rfl, hr⟩ hb hhead hsgn
+    rwa [habs] at this
 
 /-! ## `Utility::val (Utility::str x p)` -/
 
